@@ -21,6 +21,9 @@ fn main() {
 		std::process::exit(2);
 	};
 	let t0 = Instant::now();
+	if prop == "C18" && args.rest.get(1).map(String::as_str) == Some("--busy-leg") {
+		std::process::exit(c18::busy_child(args.rest.get(2).map_or("", String::as_str)));
+	}
 	if prop == "C20" && args.rest.get(1).map(String::as_str) == Some("--chroot-leg") {
 		std::process::exit(c20::chroot_child(args.rest.get(2).map_or("", String::as_str)));
 	}
